@@ -119,6 +119,8 @@ def _img(spec, ctx, R):
     psf, kind = _kernel(rng, Q, H, W, spec["idx"])
     kH, kW = psf.shape
     X = _image(rng, H, W, spec["idx"] // 8)
+    X = gen.vary(X, spec["idx"] // 3)
+    psf = gen.vary(psf, spec["idx"] // 5)
     N = H * W
     tags = [kind]
     if (kH, kW) == (H, W):
